@@ -993,9 +993,13 @@ class _World:
             name, val = [("label", "mallory"), ("issuer", "Acme"), ("algorithm", "SHA256"), ("period", "30"), ("digits", "6"),
                          ("secret", b32), ("foo", "1")][op["arg"] % 7]
             base = f"otpauth://totp/Acme:joe?secret={b32}&issuer=Acme&algorithm=SHA1&period=60&digits=8&foo=0"
+            if op["arg"] % 3 == 2 and name != "foo":
+                val = ""  # (the second occurrence is blank: still the parameter given twice)
             src = base + f"&{name}={val}"
         elif kind == "uri_missing_secret":
-            src = ["otpauth://totp/joe?issuer=x", "otpauth://totp/joe", "otpauth://totp/joe?secret="][op["arg"] % 3]
+            # no secret at all, an empty one, or one that is nothing but separators / padding
+            src = ["otpauth://totp/joe?issuer=x", "otpauth://totp/joe", "otpauth://totp/joe?secret=", "otpauth://totp/joe?secret=%20",
+                   "otpauth://totp/joe?secret=-%3D", "otpauth://totp/joe?secret=%20-%20&issuer=x"][op["arg"] % 6]
         elif kind == "uri_unknown_type":
             src = f"otpauth://{['xotp', 'totp2', 'TOTPX', ''][op['arg'] % 4]}/joe?secret={b32}"
         elif kind == "uri_bad_digits":
@@ -1019,6 +1023,8 @@ class _World:
             src = d
         elif kind in ("json_missing_key", "dict_missing_key"):
             d.pop("key")
+            if op["arg"] % 4:
+                d["key"] = ["", None, "= -"][op["arg"] % 4 - 1]  # (present but empty / null / separators only: still no secret)
             src = d
         elif kind in ("json_unknown_type", "dict_unknown_type"):
             d["type"] = ["xotp", "", "TOTP"][op["arg"] % 3]
